@@ -20,7 +20,17 @@
    Step(S, ev, fix) is the call; fix is a set of repair switches: {} = the code as it stands,
      "numchips"  opn2_setNumChips validates before it stores
      "trackopt"  opn2_setTrackOptions validates the option bits before it acts
-     "dumper"    leaving the VGM dumper restores the chip count and the user's loop-hooks-only value          *)
+     "dumper"    leaving the VGM dumper restores the chip count and the user's loop-hooks-only value
+     "rsxxlock"  a rejected music file leaves the set-up lock of a loaded EA-MUS song as it was
+
+   The set-up lock (Synth::setupLocked(): music mode mm = RSXX after an EA-MUS song was loaded; the IMF / CMF
+   modes are never entered, LoadMIDI_post rejects those files).  LoadMIDI_post forces the Generic volume scale
+   and two chips and re-creates the chips.  While locked, opn2_setNumChips / opn2_setVolumeRangeModel /
+   opn2_setRunAtPcmRate store the request in m_setup and touch nothing else.  Every applySetup() ends the lock
+   (it sets the music mode to MIDI first) and applies the stored requests: opn2_openBankData, opn2_setChipType,
+   and opn2_openData -- LoadMIDI_pre runs it BEFORE the file is parsed, so a rejected file ends the lock as well
+   although the EA-MUS song stays loaded.  partialReset (opn2_reset, opn2_switchEmulator) keeps the lock and
+   the two chips but copies the stored PCM-rate request into the synth.                                        *)
 EXTENDS Common, TLC
 
 Bool(c) == IF c THEN 1 ELSE 0
@@ -36,7 +46,12 @@ BankHdr(b) == CASE b = 1 -> [vs |-> 0, lfo |-> 1, lff |-> 3, ct |-> 1]
                 [] b = 2 -> [vs |-> 0, lfo |-> 0, lff |-> 5, ct |-> 0]
                 [] OTHER -> [vs |-> 0, lfo |-> 1, lff |-> 7, ct |-> 0]
 BankDigest(b) == << <<32768, 20 + b>>, <<0, 10 + b>> >>
-Song(s) == IF s = 1 THEN [nt |-> 2, trA |-> 0, trB |-> 1] ELSE [nt |-> 1, trA |-> 0, trB |-> 0]
+\* trB = -1: no note B; marks: loopStart / loopEnd markers and the device-switch meta event; rsxx: EA-MUS file
+Song(s) == CASE s = 1 -> [nt |-> 2, trA |-> 0, trB |-> 1, marks |-> TRUE, rsxx |-> FALSE]
+             [] s = 3 -> [nt |-> 1, trA |-> 0, trB |-> -1, marks |-> FALSE, rsxx |-> TRUE]
+             [] OTHER -> [nt |-> 1, trA |-> 0, trB |-> 0, marks |-> TRUE, rsxx |-> FALSE]
+ModeRSXX == 4                     \* Synth::MODE_RSXX (MODE_MIDI = 0, MODE_XMIDI = 1, MODE_IMF = 2, MODE_CMF = 3)
+Locked(S) == S.mm \in {2, 3, 4}   \* OPN2::setupLocked()
 
 S0 == [nc |-> 2, nco |-> 2, gvm |-> 1, al |-> -1, glfo |-> 0, glff |-> 0, gct |-> 0, arp |-> 0, emun |-> EmuName(0), nt |-> 0,
        emu |-> 0, pcm |-> 0, vm |-> 0, lfo |-> -1, lff |-> -1, ct |-> -1, smod |-> 0, frb |-> 0,
@@ -86,12 +101,15 @@ Step(S, ev, fix) ==
   LET v == IF "v" \in DOMAIN ev THEN ev.v ELSE 0 IN
   CASE ev.e = "SetNumChips" ->
          IF v < 1 \/ v > 100 THEN (IF "numchips" \in fix THEN Rej(S) ELSE Rej([S EXCEPT !.nc = v]))
+         ELSE IF Locked(S) THEN Ok([S EXCEPT !.nc = v])                \* stored only
          ELSE Ok(PartialReset([S EXCEPT !.nc = v, !.nco = v], FALSE, fix))
     [] ev.e = "SwitchEmulator" ->
-         IF EmuAvail(v) THEN Ok(PartialReset([S EXCEPT !.emu = v, !.nco = IF "dumper" \in fix /\ S.nc \in 1..100 THEN S.nc ELSE @],
+         IF EmuAvail(v) THEN Ok(PartialReset([S EXCEPT !.emu = v, !.nco = IF "dumper" \in fix /\ S.nc \in 1..100 /\ ~Locked(S) THEN S.nc ELSE @],
                                              S.emu = Dumper /\ v # Dumper, fix))
          ELSE Rej(S)
-    [] ev.e = "SetVolModel" -> Ok([S EXCEPT !.vm = v, !.vs = IF v = 0 THEN S.bvm ELSE IF v \in 1..5 THEN v - 1 ELSE @])
+    [] ev.e = "SetVolModel" ->
+         IF Locked(S) THEN Ok([S EXCEPT !.vm = v])                     \* stored only
+         ELSE Ok([S EXCEPT !.vm = v, !.vs = IF v = 0 THEN S.bvm ELSE IF v \in 1..5 THEN v - 1 ELSE @])
     [] ev.e = "SetAlloc" -> Ok([S EXCEPT !.al = IF v < -1 \/ v >= 3 THEN -1 ELSE v])
     [] ev.e = "SetLfo" -> Ok([S EXCEPT !.lfo = v, !.glfo = IF v < 0 THEN S.blfo ELSE Bool(v # 0)])
     [] ev.e = "SetLfoFreq" -> Ok([S EXCEPT !.lff = v, !.glff = IF v < 0 THEN S.blff ELSE v % 256])
@@ -100,7 +118,9 @@ Step(S, ev, fix) ==
     [] ev.e = "SetFullBright" -> Ok([S EXCEPT !.frb = Bool(v # 0)])
     [] ev.e = "SetArp" -> Ok([S EXCEPT !.arp = Bool(v # 0)])
     [] ev.e = "SetSoftPan" -> Ok([S EXCEPT !.span = Bool(v # 0)])
-    [] ev.e = "SetRunAtPcm" -> Ok(PartialReset([S EXCEPT !.pcm = Bool(v # 0)], FALSE, fix))
+    [] ev.e = "SetRunAtPcm" ->
+         IF Locked(S) THEN Ok([S EXCEPT !.pcm = Bool(v # 0)])          \* stored only (the next partialReset applies it)
+         ELSE Ok(PartialReset([S EXCEPT !.pcm = Bool(v # 0)], FALSE, fix))
     [] ev.e = "SetDevId" -> IF v < 0 \/ v > 15 THEN Rej(S) ELSE Ok([S EXCEPT !.dev = v])
     [] ev.e = "SetLoop" -> Ok([S EXCEPT !.loop = Bool(v # 0)])
     [] ev.e = "SetLoopCount" -> Ok([S EXCEPT !.ln = IF v = 0 THEN 1 ELSE v])
@@ -133,23 +153,48 @@ Step(S, ev, fix) ==
     [] ev.e = "OpenMidi" ->
          IF S.bd = <<>> THEN Rej(S)                                   \* LoadMIDI_pre: "Bank is not set!"
          ELSE IF CrashChips(S.nc) /\ S.emu # Dumper THEN Crash(S)
-         ELSE LET S1 == ApplySetup(S, fix) IN
-              IF ev.bad # 0 THEN Rej(S1)                              \* the parser rejects; the previous song stays
-              ELSE LET sg == Song(ev.s) IN
-                   Ok(SynthReset([S1 EXCEPT !.nt = sg.nt, !.td = [i \in 1..sg.nt |-> 0], !.cd = 0, !.solo = -1], S1.gct, FALSE, fix))
+         ELSE LET S1 == ApplySetup(S, fix) IN                         \* LoadMIDI_pre: ends the lock, applies the stored requests
+              IF ev.bad # 0                                           \* the parser rejects; the previous song stays
+              THEN (IF Locked(S) /\ "rsxxlock" \in fix
+                    THEN Rej(SynthReset([S1 EXCEPT !.mm = S.mm, !.vs = S.vs, !.nco = S.nco, !.pcmS = S.pcmS], S1.gct, FALSE, fix))
+                    ELSE Rej(S1))
+              ELSE LET sg == Song(ev.s)
+                       \* LoadMIDI_post, Format_RSXX
+                       S2 == IF sg.rsxx THEN [S1 EXCEPT !.mm = ModeRSXX, !.vs = 0, !.nco = 2] ELSE S1
+                   IN Ok(SynthReset([S2 EXCEPT !.nt = sg.nt, !.td = [i \in 1..sg.nt |-> 0], !.cd = 0, !.solo = -1], S2.gct, FALSE, fix))
     [] OTHER -> Ok(S)
 ModelStep(S, ev, fix) == LET x == Step(S, ev, fix) IN [s |-> Derive(x.s), r |-> x.r]
 
 ---------------------------------------------------------------------------
 (* The documented state the predicates refer to: kept from the *calls*, independent of the model above.
-   bank = the values of the last accepted bank (as the getters report them); hooks = registered callbacks. *)
+   bank = the values of the last accepted bank (as the getters report them); hooks = registered callbacks.
+   The set-up lock as a user sees it: locked = the last accepted music file was an EA-MUS song and no accepted call
+   has re-applied the set-up since (a bank load, opn2_setChipType, an ordinary music file); a call that reports
+   failure changes nothing, the lock included.  While locked the format's own volume model (Generic) and chip
+   count (2) are in force; the getters that read m_setup (opn2_getNumChips) report the stored request, and the
+   requests made before or during the lock are what is in force again once it is gone:
+   req = the volume model / PCM-rate mode the getters must show then (-1: undocumented argument, unconstrained),
+   rel = this very call ended the lock, vmok = the volume-model requests since the last bank were documented values
+   (the setter is void and stores anything: with an undocumented value stored nothing is expected of the lock's end). *)
 R0 == [bank |-> [gvm |-> 1, lfo |-> 0, lff |-> 0, ct |-> 0], hasBank |-> FALSE, song |-> 0,
        hooks |-> [raw |-> 0, note |-> 0, dbg |-> 0, ls |-> 0, le |-> 0],
-       loop |-> 0, ln |-> -1, ho |-> 0, afterReject |-> FALSE, probe |-> <<>>, onlyFails |-> FALSE]
+       loop |-> 0, ln |-> -1, ho |-> 0, afterReject |-> FALSE, probe |-> <<>>, onlyFails |-> FALSE,
+       locked |-> FALSE, rel |-> FALSE, req |-> [gvm |-> 1, pcmS |-> 0], vmok |-> TRUE]
 HasR(ev) == ev.e \in {"SetNumChips", "SwitchEmulator", "SetRunAtPcm", "SetDevId", "TrackOpt", "ChanEn", "OpenBank", "OpenMidi"}
 Failed(ev, r) == HasR(ev) /\ r < 0
-RefStep(R, ev, r) ==
-  LET R1 == IF Failed(ev, r) \/ ev.e = "Probe" THEN R ELSE [R EXCEPT !.onlyFails = FALSE] IN
+RefStep(R, ev, r, pre) ==
+  LET v == IF "v" \in DOMAIN ev THEN ev.v ELSE 0
+      lk == CASE ev.e = "OpenMidi" /\ r = 0 -> Song(ev.s).rsxx
+              [] ev.e = "OpenBank" /\ r = 0 -> FALSE
+              [] ev.e = "SetChipType" -> FALSE
+              [] OTHER -> R.locked
+      rq == IF ~R.locked THEN (IF lk THEN [gvm |-> IF R.vmok THEN pre.gvm ELSE -1, pcmS |-> pre.pcmS] ELSE R.req)
+            ELSE CASE ev.e = "SetVolModel" -> [R.req EXCEPT !.gvm = IF v = 0 THEN R.bank.gvm ELSE IF v \in 1..5 THEN v ELSE -1]
+                   [] ev.e = "SetRunAtPcm" /\ r = 0 -> [R.req EXCEPT !.pcmS = IF v \in 0..1 THEN v ELSE -1]
+                   [] OTHER -> R.req
+      R1 == [(IF Failed(ev, r) \/ ev.e = "Probe" THEN R ELSE [R EXCEPT !.onlyFails = FALSE])
+               EXCEPT !.locked = lk, !.rel = R.locked /\ ~lk, !.req = rq,
+                      !.vmok = IF ev.e = "SetVolModel" THEN v \in 0..5 ELSE IF ev.e = "OpenBank" /\ r = 0 THEN TRUE ELSE @] IN
   CASE ev.e = "OpenBank" /\ r = 0 ->
          LET h == BankHdr(ev.b) IN [R1 EXCEPT !.bank = [gvm |-> h.vs + 1, lfo |-> h.lfo, lff |-> h.lff, ct |-> h.ct], !.hasBank = TRUE]
     [] ev.e = "OpenMidi" -> IF r = 0 THEN [R1 EXCEPT !.song = ev.s, !.afterReject = FALSE] ELSE [R1 EXCEPT !.afterReject = TRUE]
@@ -169,6 +214,8 @@ HookF == {"hn", "hd", "idb", "ir", "ils", "ile"}
 SongF == {"solo", "td", "cd", "nt"}                \* options "of the current sequence"
 \* everything a call that reports failure must leave alone
 RejF == PersistF \cup HookF \cup {"nco", "ho"}
+\* the live values the EA-MUS format takes over / the lock defers
+LockF == {"nco", "gvm", "pcmS"}
 
 \* while the VGM dumper is the emulator the loop-hook slots and "loop hooks only" of the sequencer belong to it
 \* (every chip re-creation, also the one inside a rejected music load, takes them again)
@@ -194,7 +241,7 @@ Exp(ev, pre, R) ==
   LET v == IF "v" \in DOMAIN ev THEN ev.v ELSE 0 IN
   CASE ev.e = "SetNumChips" -> {<<"nc", v>>}
     [] ev.e = "SwitchEmulator" -> {<<"emun", EmuName(v)>>, <<"emu", v>>}
-    [] ev.e = "SetVolModel" /\ v \in 0..5 -> {<<"gvm", IF v = 0 THEN R.bank.gvm ELSE v>>}
+    [] ev.e = "SetVolModel" /\ v \in 0..5 -> IF R.locked THEN {<<"vm", v>>} ELSE {<<"gvm", IF v = 0 THEN R.bank.gvm ELSE v>>}
     [] ev.e = "SetAlloc" /\ v \in -1..2 -> {<<"al", v>>}
     [] ev.e = "SetLfo" /\ v \in -1..1 -> {<<"glfo", IF v < 0 THEN R.bank.lfo ELSE v>>}
     [] ev.e = "SetLfoFreq" /\ v \in -1..7 -> {<<"glff", IF v < 0 THEN R.bank.lff ELSE v>>}
@@ -203,7 +250,7 @@ Exp(ev, pre, R) ==
     [] ev.e = "SetFullBright" /\ v \in 0..1 -> {<<"frb", v>>}
     [] ev.e = "SetArp" /\ v \in 0..1 -> {<<"arp", v>>}
     [] ev.e = "SetSoftPan" /\ v \in 0..1 -> {<<"span", v>>}
-    [] ev.e = "SetRunAtPcm" /\ v \in 0..1 -> {<<"pcmS", v>>}
+    [] ev.e = "SetRunAtPcm" /\ v \in 0..1 -> IF R.locked THEN {<<"pcm", v>>} ELSE {<<"pcmS", v>>}
     [] ev.e = "SetDevId" -> {<<"dev", v>>}
     [] ev.e = "SetLoop" /\ v \in 0..1 -> {<<"loop", v>>}
     [] ev.e = "SetLoopCount" /\ (v = -1 \/ v >= 1) -> {<<"ln", v>>}
@@ -219,16 +266,33 @@ Exp(ev, pre, R) ==
     [] OTHER -> {}
 
 Lab(pfx, S) == { pfx \o f : f \in S }
+\* the set-up lock (R = documented state before the accepted call, R1 = after it)
+LockFails(pre, ev, post, R, R1) ==
+  \* while an EA-MUS song is the loaded one its own volume model and chip count are in force
+  (IF R1.locked /\ post.nco # 2 THEN {"locked-inforce:nco"} ELSE {})
+  \cup (IF R1.locked /\ post.gvm # 1 THEN {"locked-inforce:gvm"} ELSE {})
+  \* a deferred PCM-rate request comes into force at some chip re-creation, nothing else moves the value
+  \cup (IF R.locked /\ R1.locked /\ R1.req.pcmS # -1 /\ post.pcmS # pre.pcmS /\ post.pcmS # R1.req.pcmS THEN {"locked-persist:pcmS"} ELSE {})
+  \* the lock is gone: the requests made before / during it are in force (the chip count: see ForceFails)
+  \cup (IF R1.rel /\ ev.e # "OpenBank" /\ R.req.gvm # -1 /\ post.gvm # R.req.gvm THEN {"locked-apply:gvm"} ELSE {})
+  \cup (IF R1.rel /\ R.req.pcmS # -1 /\ post.pcmS # R.req.pcmS THEN {"locked-apply:pcmS"} ELSE {})
 \* accepted values stick / rejected calls change nothing / everything else persists
-CallFails(pre, ev, r, post, R) ==
+CallFails(pre, ev, r, post, R, R1) ==
   IF Failed(ev, r)
-  THEN Lab("reject-changed:", { f \in (IF ev.e = "OpenMidi" THEN RejF \ SongF ELSE RejF) \ DumperF(pre) : post[f] # pre[f] })
-       \cup (IF ev.e \in {"OpenBank", "OpenMidi"} /\ "er" \in DOMAIN post /\ post.er # 1 THEN {"reject-noerror"} ELSE {})
-  ELSE Lab("stick:", { x[1] : x \in { y \in Exp(ev, pre, R) : post[y[1]] # y[2] } })
-       \cup Lab("persist:", { f \in PersistF \ Target(ev) : post[f] # pre[f] })
+  THEN LET unl == Locked(pre) /\ ~Locked(post)          \* the rejected call ended the set-up lock: one label for the class,
+           \* the live values that moved with it (chip count, volume model, PCM-rate mode) are part of it
+           chg == { f \in (IF ev.e = "OpenMidi" THEN RejF \ SongF ELSE RejF) \ DumperF(pre) : post[f] # pre[f] }
+       IN Lab("reject-changed:", IF unl THEN chg \ LockF ELSE chg)
+          \cup (IF unl THEN {"reject-unlocked"} ELSE {})
+          \cup (IF ev.e \in {"OpenBank", "OpenMidi"} /\ "er" \in DOMAIN post /\ post.er # 1 THEN {"reject-noerror"} ELSE {})
+  ELSE Lab(IF R.locked THEN "locked-stick:" ELSE "stick:", { x[1] : x \in { y \in Exp(ev, pre, R) : post[y[1]] # y[2] } })
+       \cup Lab("persist:", { f \in (PersistF \ Target(ev)) \ ((IF R.locked # R1.locked THEN {"gvm"} ELSE {}) \cup (IF R.locked THEN {"pcmS"} ELSE {})) :
+                              post[f] # pre[f] })
+       \cup LockFails(pre, ev, post, R, R1)
 \* the state every call must leave in force (R1 = documented state after the call)
 ForceFails(post, R1) ==
-  (IF post.nc \in 1..100 /\ post.nco # (IF post.emu = Dumper THEN Min(post.nc, 2) ELSE post.nc) THEN {"inforce:nco"} ELSE {})
+  (IF ~R1.locked /\ post.nc \in 1..100 /\ post.nco # (IF post.emu = Dumper THEN Min(post.nc, 2) ELSE post.nc)
+   THEN {IF R1.rel THEN "locked-apply:nco" ELSE "inforce:nco"} ELSE {})
   \cup (IF post.emu # Dumper /\ post.ho # R1.ho THEN {"inforce:ho"} ELSE {})
   \cup Lab("hook-slot:", { h \in {"raw", "note", "dbg"} \cup (IF post.emu # Dumper THEN {"ls", "le"} ELSE {}) :
             CASE h = "raw" -> post.ir # R1.hooks.raw
@@ -241,7 +305,11 @@ ReloadFails(ev, r, R) == IF ev.e = "OpenMidi" /\ ev.bad = 0 /\ R.hasBank /\ R.af
 ReloadCounts(ev, R) == ev.e = "OpenMidi" /\ ev.bad = 0 /\ R.hasBank /\ R.afterReject
 
 \* the twin received the same history without the calls that reported failure
-TwinFails(a, b) == Lab("twin:", { f \in RejF \ DumperF(a) : a[f] # b[f] })
+\* (a rejected call ended the set-up lock on A, the twin is still locked: the class reject-unlocked)
+TwinFails(a, b) ==
+  LET d == { f \in RejF \ DumperF(a) : a[f] # b[f] }
+      unl == Locked(b) /\ ~Locked(a)
+  IN Lab("twin:", IF unl THEN d \ LockF ELSE d) \cup (IF unl THEN {"reject-unlocked"} ELSE {})
 
 \* rendered phrase: identical on the twin, and identical to the previous probe when only rejected calls lie between
 AudioComparable(o) == o.emu \notin {2, Dumper}        \* GENS: address-dependent LSBs; the dumper renders nothing
@@ -261,7 +329,7 @@ PlayFails(p, o, R) ==
            nA == Cardinality({ i \in DOMAIN p.kons : p.kons[i] < 4 })
            nB == Cardinality({ i \in DOMAIN p.kons : p.kons[i] >= 4 })
            onA == TrackOn(o, sg.trA) /\ ChanOn(o, 0) /\ o.nco >= 1
-           onB == TrackOn(o, sg.trB) /\ ChanOn(o, 1) /\ o.nco >= 1
+           onB == sg.trB >= 0 /\ TrackOn(o, sg.trB) /\ ChanOn(o, 1) /\ o.nco >= 1
            any == \E t \in 0..(sg.nt - 1) : TrackOn(o, t)
            P == Passes(R)
            usr == o.emu # Dumper
@@ -270,8 +338,8 @@ PlayFails(p, o, R) ==
           \cup (IF o.emu # Dumper /\ P = -1 /\ ((onA /\ nA < 3) \/ (~onA /\ nA # 0) \/ (onB /\ nB < 3) \/ (~onB /\ nB # 0)) THEN {"play:loops"} ELSE {})
           \cup (IF Fire("raw", 1, any) THEN {"hook-fire:raw"} ELSE {})
           \cup (IF Fire("note", 2, nA + nB > 0) THEN {"hook-fire:note"} ELSE {})
-          \cup (IF Fire("dbg", 3, TrackOn(o, 0)) THEN {"hook-fire:dbg"} ELSE {})
-          \* loop hooks: must fire when looping is on and the track with the markers plays (loop off: not constrained)
-          \cup (IF usr /\ Fire("ls", 4, R.loop = 1 /\ TrackOn(o, 0)) THEN {"hook-fire:ls"} ELSE {})
-          \cup (IF usr /\ Fire("le", 5, R.loop = 1 /\ TrackOn(o, 0)) THEN {"hook-fire:le"} ELSE {})
+          \cup (IF Fire("dbg", 3, sg.marks /\ TrackOn(o, 0)) THEN {"hook-fire:dbg"} ELSE {})
+          \* loop hooks: must fire when looping is on and the track with the markers plays (loop off, no markers: not constrained)
+          \cup (IF usr /\ Fire("ls", 4, sg.marks /\ R.loop = 1 /\ TrackOn(o, 0)) THEN {"hook-fire:ls"} ELSE {})
+          \cup (IF usr /\ Fire("le", 5, sg.marks /\ R.loop = 1 /\ TrackOn(o, 0)) THEN {"hook-fire:le"} ELSE {})
 =============================================================================
